@@ -1,5 +1,10 @@
 import QibModel.DriverMain
 import QibModel.QubitizationOps
-/-! Executable `drv_qubitization`: ops of C19 (`pcps.circuit`, `pcps.matrix`, `evt.matrix`, `evt.circuit`). -/
+import QibModel.QubitizationHistOps
+/-! Executable `drv_qubitization`: ops of C19 (`pcps.circuit`, `pcps.matrix`, `evt.matrix`, `evt.circuit`; histories of mutator
+calls: `pcps.history`, `evt.history`). -/
 
-def main : IO Unit := Qib.driverMain Qib.Qubitization.dispatch
+def main : IO Unit := Qib.driverMain fun op j =>
+  match Qib.Qubitization.dispatch op j with
+  | some r => some r
+  | none => Qib.Qubitization.dispatchHist op j
